@@ -27,6 +27,7 @@ var c19Xfs = []Xf{
 	{Scale: 1.0 / (1 << 30)},                // tiny: products of differences around 2^-56, where an absolute epsilon would bite
 	{Scale: 1.0 / (1 << 45), Tx: 0, Ty: 0},  // 2^-45
 	farFineXf,                               // step 2^-12 at 2^19
+	{Scale: 0x1p-300},                       // products of two determinants underflow here, the kernels' own arithmetic does not
 	{Scale: 1.0 / 8192, Tx: -1048575, Ty: 1048575 - 1.0/256},
 }
 
